@@ -129,4 +129,22 @@ PROPS["C15"] = {
     "level_note": "regex matching itself (Go regexp) and IP text parsing (net.ParseIP) are modelled library behaviour.",
 }
 
+PROPS["C08"] = {
+    "drivers": [MAIN],
+    "rule": "(1) NewValidator on 10 domain configurations (exact, leading-dot, wildcard, '*', mixed case, TLD) with/without an e-mail file x "
+            "~120 e-mails from a grammar (unusual local parts, 0-3 '@', mixed case, sub-domains, look-alike suffixes, empty parts); "
+            "(2) authOnlyAuthorize on 8 sessions x query strings with multiple values, comma lists, empty items for the three constraints and "
+            "their pairs; (3) the real proxy, both stores: sessions passing/failing the global rules on /, /oauth2/auth (with constraints), "
+            "/oauth2/userinfo; rule change between login and request; logins with failing identities; non-trivial = all",
+    "assumptions": ["strings.ToLower modelled for ASCII (non-ASCII e-mails are run on the implementation and the oracle only)",
+                    "net/url Hostname()/Port() of a bare host modelled by split_host_port_lax"],
+    "trusted_base": ["reference reading of the e-mail rules written in the driver (vRefEmailOK)"],
+    "level_text": "c08_email_spec (validator = empty-check, '*', per-domain rule on the part after the last '@', file membership; for all "
+                  "strings), c08_groups_spec, c08_served / c08_refused (every non-bypassed request: served only if the session passes the rules "
+                  "passed to THIS call; a failing session is denied and its cookie cleared), c08_auth_only, c08_entities, "
+                  "c08_groups_constraint, c08_emails_constraint are proved on the Gallina model of validator.go / Authorize / "
+                  "getAuthenticatedSession / authOnlyAuthorize; compared with the Go functions and an independent reference on every run.",
+    "level_note": "allowed_email_domains matching is modelled (is_endpoint_allowed) and compared, its declarative reading is shared with C06.",
+}
+
 NOT_APPLICABLE = {}
